@@ -43,6 +43,19 @@ CHECKS["C20"] = dict(
     technique="TLA+ spec (Wrap.tla) model-checked with TLC; TLC-enumerated cases replayed on the real wrappers; recorded outputs validated by a TLA+ trace spec",
 )
 
+CHECKS["C04"] = dict(
+    text=("Values.tla gives each built-in value parser its language declaratively (decimal notation over arbitrary-precision digit "
+          "strings, range, target width; literal tables; names and aliases) next to the mechanism as written (parse as i64/u64, "
+          "bounds, checked narrowing); TLC checks mechanism = language for every (width, constructor, range, candidate string) in the "
+          "boundary family and the typed-access machine's frame properties for every call history; each case is parsed by a real "
+          "Command and read back with get_one::<T> (accept/reject, value, error kind, raw string, argument named); random 64-bit "
+          "ranges and strings recorded from the real code are validated by Trace_C04.tla, which evaluates the declarative language on "
+          "the implementation's observation."),
+    ref="§4.C04",
+    note="value_parser! inference for arbitrary user types and custom parsers are outside the vocabulary.",
+    technique="TLA+ spec (Values.tla) model-checked with TLC; TLC-enumerated cases replayed on real Command/ArgMatches; recorded cases validated by a TLA+ trace spec",
+)
+
 NOT_YET = "check not built yet in this round (specification module planned in DESIGN.md §4/§5); not claimed until its check exists"
 
 
